@@ -8,6 +8,7 @@ package main
 import (
 	"verif/engine"
 
+	_ "verif/checks/c01"
 	_ "verif/checks/c11"
 	_ "verif/checks/c19"
 	_ "verif/checks/c20"
